@@ -108,8 +108,8 @@ def check_model(m, label, model, inputs, source='text', settings=None):
         m.violation(f'pretty-raises-on-recompiled/{type(e).__name__}', grammar=label, pretty=p1)
     nt = 0
     for t in inputs:
-        a = impl.parse(model, t)
-        b = impl.parse(m2, t)
+        a = impl.parse(model, t, _start_policy=True)
+        b = impl.parse(m2, t, _start_policy=True)
         m.add('evaluations', 2)
         if a[0] == 'ok':
             nt += 1
